@@ -71,6 +71,12 @@ class LoopMixin:
                     return (lambda s: lo - s.heap.get(cur_key) > hi,
                             lambda s: SInt(lo - s.heap.get(cur_key)),
                             lambda s: lo - hi - s.heap.get(cur_key))
+        if isinstance(itv, SDyn):
+            # a dynamic iterable: it must be a list / tuple object (obligation), iterated element-wise
+            seq = z3.And(PyVal.is_RefV(itv.t), z3.Or([self.cls_term(st, PyVal.rval(itv.t)) == self.class_ids[c] for c in ("list", "tuple")]))
+            self.oblige(st, "type", "iter-sequence", seq, "iteration over a dynamic value that is not known to be a list or tuple")
+            st.assume(seq)
+            itv = SRef(PyVal.rval(itv.t), "list:any")
         if isinstance(itv, SRef) and itv.kind.startswith("list:") and isinstance(node.iter, ast.Call) and st.old is not None \
                 and not self.feasible(st, itv.t < st.old[2]):
             # a list created during this activation and held only by the loop's iterator (the iterable is a call
